@@ -574,6 +574,22 @@ COLLECTION_LIMITS = ['MAX_STRING_LENGTH', 'MAX_COLLECTION_SIZE', 'MAX_VARIABLES'
 """The arguments that limit what a snapshot collects (and how long it may take)."""
 
 
+def read_limit(config: Dict[str, any], name: str, default: Optional[int]) -> Optional[int]:
+    """
+    Read a collection limit from the arguments of a tracepoint, or from the config of an action.
+
+    :param config: the arguments or action config
+    :param name: the name of the limit
+    :param default: the value to use when the limit is not given, or is not a usable number
+    :return: the limit
+    """
+    try:
+        value = int(config[name])
+    except (KeyError, TypeError, ValueError):
+        return default
+    return value if value >= 0 else default
+
+
 def build_snapshot_action(tp_id: str, args: Dict[str, str], watches: List[str]) -> Optional[LocationAction]:
     """
     Create an action to create a snapshot.
@@ -603,13 +619,10 @@ def build_snapshot_action(tp_id: str, args: Dict[str, str], watches: List[str]) 
     # the collection limits are arguments of the tracepoint like the others (text, as all arguments): without them in
     # the action config the collection always runs with the defaults
     for limit in COLLECTION_LIMITS:
-        if limit in args:
-            try:
-                value = int(args[limit])
-            except (TypeError, ValueError):
-                continue
-            if value >= 0:
-                config[limit] = value
+        # (kept as given: the action config is also what the snapshot reports as the arguments of its tracepoint, and
+        # those are text on the wire)
+        if limit in args and read_limit(args, limit, None) is not None:
+            config[limit] = args[limit]
     return LocationAction(tp_id, condition, config, LocationAction.ActionType.Snapshot)
 
 
